@@ -1,6 +1,7 @@
 package main
 
 import (
+	"golang.org/x/tools/go/ssa"
 	"encoding/json"
 	"flag"
 	"fmt"
@@ -90,6 +91,7 @@ func cmdVerify(args []string) {
 	os.MkdirAll(*smtDir, 0o755)
 	rep := &Report{Repo: *repo, Property: *prop, ContractFiles: cs.Files, ContractNotes: notes, ParseErrors: cs.Errors, LoadS: loadS}
 	var keys []string
+	depKeys := map[string]bool{}
 	for k, c := range cs.ByKey {
 		if *prop != "" {
 			has := false
@@ -106,6 +108,62 @@ func cmdVerify(args []string) {
 			continue
 		}
 		keys = append(keys, k)
+	}
+	if *prop != "" {
+		// dependency closure: a property's check re-verifies every function under contract that the selected functions
+		// call (directly or through uncontracted, inlined callees), transitively: the proof of a caller relies on the
+		// callee's contract, so a change that breaks the callee's contract breaks the property's proof
+		sel := map[string]bool{}
+		for _, k := range keys {
+			sel[k] = true
+		}
+		type item struct {
+			fn    *ssa.Function
+			depth int
+		}
+		var work []item
+		seen := map[*ssa.Function]bool{}
+		for _, k := range keys {
+			if fn := P.Funcs[k]; fn != nil {
+				work = append(work, item{fn, 0})
+			}
+		}
+		for len(work) > 0 {
+			it := work[len(work)-1]
+			work = work[:len(work)-1]
+			if seen[it.fn] || it.fn.Blocks == nil {
+				continue
+			}
+			seen[it.fn] = true
+			for _, b := range it.fn.Blocks {
+				for _, in := range b.Instrs {
+					cc, ok := in.(ssa.CallInstruction)
+					if !ok {
+						continue
+					}
+					callee := cc.Common().StaticCallee()
+					if callee == nil {
+						continue
+					}
+					ck := calleeKey(callee)
+					if c := cs.ByKey[ck]; c != nil {
+						if !sel[ck] {
+							sel[ck] = true
+							keys = append(keys, ck)
+							depKeys[ck] = true
+						}
+						if c.AssumeDep == "" && !c.NoBody && c.Havoc == "" {
+							work = append(work, item{callee, 0})
+						}
+					} else if it.depth < 4 {
+						work = append(work, item{callee, it.depth + 1})
+					}
+				}
+			}
+			for _, af := range it.fn.AnonFuncs {
+				work = append(work, item{af, it.depth})
+			}
+		}
 	}
 	sort.Strings(keys)
 	results := make([]*FuncResult, len(keys))
